@@ -117,6 +117,56 @@ func selfTest(ctx *core.Ctx) error {
 	}
 	ctx.Logf("self-test (i): %d corrupted records rejected, each for the expected clause; intact ones accepted", len(muts))
 
+	// (i') the same for a reader record (foreign tree: root /Rotate 90, an
+	// inner node overriding it with an explicit 0, an empty /Pages node)
+	fc := &fcase{Version: "1.7", XRef: "stream", ObjStm: true, Seed: 11, Update: "insert", At: 5, Probes: []int{0, 1, 2, 3},
+		Nodes: []fnode{
+			{T: "Pages", K: []int{2, 3, 4, 7}, A: attrs{"A", "-", "90", "R1"}, Ind: 5},
+			{T: "Page", A: noAttrs, ID: 1},
+			{T: "Pages", K: []int{}, A: noAttrs},
+			{T: "Pages", K: []int{5, 6}, A: attrs{"-", "A", "0", "-"}, Ind: 16},
+			{T: "Page", A: attrs{"B", "-", "-", "-"}, ID: 2},
+			{T: "Page", A: attrs{"-", "-", "-90", "-"}, ID: 3},
+			{T: "Page", A: noAttrs, ID: 4}}}
+	fgood := observeForeign(fc)
+	if fgood.Err != "" || compareForeign(&fgood, expectedPages(fc.Nodes)) != "" {
+		return core.Infra("self-test: reader case: %q", fgood.Err)
+	}
+	fmuts := []mut{
+		{"r_iter", func(r *record) { r.Iter[1].A.R = "90" }}, // explicit 0 of the inner node lost
+		{"r_iter", func(r *record) { r.Iter[0], r.Iter[1] = r.Iter[1], r.Iter[0] }},
+		{"r_getpage", func(r *record) { r.GetPage[3].ID = r.GetPage[2].ID }}, // miscounted across the empty node
+		{"r_numpages", func(r *record) { r.NumPages-- }},
+		{"r_decode", func(r *record) { r.Dec[2].A.R = "90" }}, // -90 must decode as 270
+		{"premise", func(r *record) { r.Nodes[3].N++ }},       // the given tree itself must be conforming
+	}
+	frecs := []record{fgood}
+	for _, m := range fmuts {
+		r := clone(fgood)
+		m.f(&r)
+		frecs = append(frecs, r, fgood)
+	}
+	fbad, err := judge(ctx, frecs, "", 4)
+	if err != nil {
+		return err
+	}
+	if len(fbad) != len(fmuts) {
+		return core.Infra("self-test: %d corrupted reader records, TLC rejected %v", len(fmuts), fbad)
+	}
+	for i, b := range fbad {
+		if b != 1+2*i {
+			return core.Infra("self-test: corrupted reader records not singled out: %v", fbad)
+		}
+		cl, err := readerFailingClause(ctx, frecs[b])
+		if err != nil {
+			return err
+		}
+		if cl != fmuts[i].clause {
+			return core.Infra("self-test: reader corruption %d should fail clause %q, TLC says %q", i, fmuts[i].clause, cl)
+		}
+	}
+	ctx.Logf("self-test (i'): %d corrupted reader records rejected, each for the expected clause", len(fmuts))
+
 	// (ii) seeded defects of the design model
 	for _, nc := range []struct{ cfg, inv string }{
 		{"MC_PageTree_neg_key_skipabsent.cfg", "EffectiveSoFar"},
